@@ -635,3 +635,57 @@ func init() {
 		Stubs:   stubsCommon,
 	})
 }
+
+func init() {
+	const (
+		cSet = 1 << iota
+		cGet
+		cDel
+		cType
+		cHSet
+		cHGet
+		cHDel
+		cSAdd
+		cSIsMember
+		cSRem
+		cLPush
+		cRPush
+		cLPop
+		cZAdd
+		cZScore
+		cRestart
+	)
+	register(&CheckDef{
+		ID:    "C19",
+		Title: "Redis-style data structures behave like their abstract types and survive restart",
+		Reach: []string{"done", "expired", "restarted", "popped"},
+		Jobs: func(tier string) []JobSpec {
+			var js []JobSpec
+			add := func(name string, params map[string]int64) {
+				js = append(js, JobSpec{Name: name, Harness: "datatype", Func: "verifHarnessC19", Params: params, Scale: scaleDF(32)})
+			}
+			if tier == "quick" {
+				add("all-commands-1key-k3", p("k", 3, "keys", 1, "cmds", 65535))
+				add("string-hash-del-type-2keys-k3", p("k", 3, "keys", 2, "cmds", cSet|cGet|cDel|cType|cHSet|cHGet|cHDel|cRestart))
+				add("list-restart-k4", p("k", 4, "keys", 1, "cmds", cLPush|cLPop|cDel|cRestart))
+				add("zset-set-btree-k3", p("k", 3, "keys", 1, "cmds", cZAdd|cZScore|cSAdd|cSRem|cSIsMember|cDel|cRestart, "index", 1))
+			} else {
+				add("all-commands-1key-k4", p("k", 4, "keys", 1, "cmds", 65535))
+				add("all-commands-2keys-k3", p("k", 3, "keys", 2, "cmds", 65535))
+				add("list-restart-k5", p("k", 5, "keys", 1, "cmds", cLPush|cLPop|cDel|cRestart))
+				add("zset-set-btree-k4", p("k", 4, "keys", 1, "cmds", cZAdd|cZScore|cSAdd|cSRem|cSIsMember|cDel|cRestart, "index", 1))
+			}
+			js = append(js, JobSpec{Name: "witness", Harness: "datatype", Func: "verifHarnessC19", Params: p("k", 1, "keys", 1, "cmds", cSet, "witness", 1), Scale: scaleDF(32), Witness: true})
+			return js
+		},
+		Assumptions: []string{"clock: every command sees one instant; instants advance by exactly 1 ms per command (concrete); TTLs are {none, 1 ms (expired at the next command), 1 h}. Native replays sleep 2 ms per command",
+			"scores from {-1.5, 0, 2} (symbolic floats are not supported by the engine)", "keys, fields/members and values are 1 symbolic byte; 'absent' replies are normalised (nil,nil / -1,nil / key-not-found)",
+			"an emptied hash/set/list/zset keeps its type (as the implementation does)"},
+		Bounds: map[string]string{
+			"quick":    "K=3 commands from all 15 commands + restart over 1 key; K=3 over 2 keys for strings/hashes/Del/Type; K=4 for lists; K=3 for zsets/sets on the B-tree index; 2 fields/members",
+			"thorough": "K=4 all commands on 1 key, K=3 all commands on 2 keys, K=5 lists",
+		},
+		Outside: "keys >= 9 bytes / members >= 5 bytes (could collide with an internal key|version|field encoding); symbolic clock and TTL arithmetic; score formatting beyond three values",
+		Stubs:   stubsCommon,
+	})
+}
